@@ -28,7 +28,7 @@ def gen_cases(rng, tier):
     cases = []
     for i in range(n):
         cls = rng.choice(["MS", "SS", "DC"])
-        N = rng.choice([3, 4, 5])
+        N = rng.choice([2, 3, 4, 5])
         case = {
             "cls": cls, "N": N, "M": rng.choice([1, 2]), "degree": rng.choice([2, 3]),
             "grid": rng.choice([{"cls": "Uniform"}, {"cls": "Geometric", "growth": ocpgen.rnd(rng, 1.2, 3.0, 2)}]),
@@ -36,6 +36,7 @@ def gen_cases(rng, tier):
             "coef": [ocpgen.rnd(rng, -0.6, 0.6, 3) for _ in range(6)],
             "args": sorted(rng.sample(["x0", "ref", "q", "u_guess", "x_guess"], rng.randint(1, 4))),
             "zarg": cls == "DC" and rng.random() < 0.0,
+            "limited": rng.random() < 0.5,
             "values": [], "q_first": ocpgen.rnd(rng, 0.2, 1.0, 3), "q_current": ocpgen.rnd(rng, 0.2, 1.0, 3),
             "seed": rng.getrandbits(32)}
         for _ in range(2 if tier == "quick" else 3):
@@ -84,14 +85,16 @@ def make_ocp(case):
     else:
         meth = rockit.SingleShooting(N=N, M=case["M"], intg="rk", grid=build.make_grid(case["grid"]))
     ocp.method(meth)
-    ocp.solver("ipopt", {"ipopt.print_level": 0, "print_time": False, "ipopt.tol": 1e-10, "ipopt.max_iter": 200})
+    # 'limited': stop after two iterations, so that the outputs depend on the start point (initial-guess arguments)
+    ocp.solver("ipopt", {"ipopt.print_level": 0, "print_time": False, "ipopt.tol": 1e-10,
+                         "ipopt.max_iter": 2 if case.get("limited") else 200})
     return ocp, {"x": x, "u": u, "x0": x0p, "ref": ref, "q": q}
 
 
 def run_case(case):
     import casadi as ca
-    res = {"sig": "%s|%s|N%dM%d|nx%d|%s" % (case["cls"], C.grid_tag(case["grid"]), case["N"], case["M"], case["nx"],
-                                           "+".join(case["args"])),
+    res = {"sig": "%s|%s|N%dM%d|nx%d|%s|%s" % (case["cls"], C.grid_tag(case["grid"]), case["N"], case["M"], case["nx"],
+                                              "+".join(case["args"]), "limited" if case.get("limited") else "converged"),
            "evals": 0, "violations": [], "counters": {"function_calls": 0, "outputs_compared": 0, "not_converged": 0}}
     N = case["N"]
     ss = case["cls"] == "SS"
@@ -146,7 +149,13 @@ def run_case(case):
                 ocpB.set_initial(sB["u"], ca.DM(vals["u_guess"]).T)
             if "x_guess" in args_sel:
                 ocpB.set_initial(sB["x"], ca.DM(np.array(vals["x_guess"])))
-            sol = ocpB.solve()
+            if case.get("limited"):
+                try:
+                    sol = ocpB.solve_limited()
+                except Exception:
+                    sol = ocpB.non_converged_solution
+            else:
+                sol = ocpB.solve()
             outB = [np.array(sol.sample(sB["x"], grid="control")[1], dtype=float).T,
                     np.array(sol.sample(sB["u"], grid="control-")[1], dtype=float).reshape(1, -1),
                     np.array(sol.value(ocpB.at_tf(sB["x"][0]) + ocpB.T), dtype=float).reshape(1, 1)]
